@@ -106,14 +106,53 @@ type OnKill struct {
 	Poison bool     // 是否采用毒杀模式，true 时立即销毁，不处理剩余队列，false 时常规优雅下线。
 }
 
-func onKillReader(message any, reader *messages.Reader, codec messages.Codec) error {
+func onKillReader(message any, reader *messages.Reader, codec messages.Codec) (err error) {
 	m := message.(*OnKill)
-	return reader.ReadInto(&m.Killer, &m.Reason, &m.Poison)
+	if m.Killer, err = readActorRef(reader); err != nil {
+		return err
+	}
+	return reader.ReadInto(&m.Reason, &m.Poison)
 }
 
 func onKillWriter(message any, writer *messages.Writer, codec messages.Codec) error {
 	m := message.(*OnKill)
-	return writer.WriteFrom(m.Killer, m.Reason, m.Poison)
+	if err := writeActorRef(writer, m.Killer); err != nil {
+		return err
+	}
+	return writer.WriteFrom(m.Reason, m.Poison)
+}
+
+// actorRefFactory 由 internal/actor 在 init 中通过 RegisterActorRefFactory 注册，用于在解码携带 ActorRef 的内置消息时按地址与路径重建引用。
+var actorRefFactory func(address, path string) (ActorRef, error)
+
+// RegisterActorRefFactory 供 internal/actor 在 init 中调用，注册「根据地址与路径创建 ActorRef」的函数。
+// 不应在业务代码中调用。
+func RegisterActorRefFactory(fn func(address, path string) (ActorRef, error)) {
+	actorRefFactory = fn
+}
+
+// writeActorRef 以地址与路径两个字符串的形式写入 ActorRef（接口值本身无法跨网络传输），nil 写为两个空串。
+func writeActorRef(writer *messages.Writer, ref ActorRef) error {
+	var address, path string
+	if ref != nil {
+		address, path = ref.GetAddress(), ref.GetPath()
+	}
+	return writer.WriteFrom(address, path)
+}
+
+// readActorRef 读取由 writeActorRef 写入的 ActorRef，两个空串还原为 nil。
+func readActorRef(reader *messages.Reader) (ActorRef, error) {
+	var address, path string
+	if err := reader.ReadInto(&address, &path); err != nil {
+		return nil, err
+	}
+	if address == "" && path == "" {
+		return nil, nil
+	}
+	if actorRefFactory == nil {
+		return nil, fmt.Errorf("actor ref factory not registered")
+	}
+	return actorRefFactory(address, path)
 }
 
 // Pong 表示 Ping 消息的响应。
@@ -162,14 +201,15 @@ type OnKilled struct {
 	Ref ActorRef // 被终止的 ActorRef
 }
 
-func onKilledReader(message any, reader *messages.Reader, codec messages.Codec) error {
+func onKilledReader(message any, reader *messages.Reader, codec messages.Codec) (err error) {
 	m := message.(*OnKilled)
-	return reader.ReadInto(&m.Ref)
+	m.Ref, err = readActorRef(reader)
+	return err
 }
 
 func onKilledWriter(message any, writer *messages.Writer, codec messages.Codec) error {
 	m := message.(*OnKilled)
-	return writer.WriteFrom(m.Ref)
+	return writeActorRef(writer, m.Ref)
 }
 
 type StreamEvent any
